@@ -39,6 +39,12 @@ def step (s : State) (ws : List String) : State × String :=
     match refBlock s r, n.toNat? with
     | some b, some n => if n < W then let (s', r) := realloc s b.off n; (s', fmt r s') else (s, "bad-op")
     | _, _ => (s, "bad-op")
+  | ["reallocdead", n] =>
+    -- realloc of the address at offset `last` while no live block is there
+    match n.toNat? with
+    | some n =>
+      if n < W ∧ s.live.all (·.off ≠ s.last) then let (s', r) := realloc s s.last n; (s', fmt r s') else (s, "bad-op")
+    | none => (s, "bad-op")
   | ["free", "0"] => (s, s!"free | last={s.last} top={s.top} live={s.live.length}")
   | ["free", r] =>
     match refBlock s r with
